@@ -11,7 +11,9 @@ import (
 
 	"github.com/zenon-network/go-zenon/chain"
 	"github.com/zenon-network/go-zenon/chain/account"
+	"github.com/zenon-network/go-zenon/chain/genesis"
 	g "github.com/zenon-network/go-zenon/chain/genesis/mock"
+	"github.com/zenon-network/go-zenon/chain/momentum"
 	"github.com/zenon-network/go-zenon/chain/nom"
 	"github.com/zenon-network/go-zenon/chain/store"
 	"github.com/zenon-network/go-zenon/common/db"
@@ -31,8 +33,8 @@ type fakeMS struct {
 	active map[*types.ImplementedSpork]bool
 }
 
-func (f *fakeMS) GetFrontierMomentum() (*nom.Momentum, error)         { return f.m, nil }
-func (f *fakeMS) GetAllDefinedSporks() ([]*definition.Spork, error)   { return f.sporks, nil }
+func (f *fakeMS) GetFrontierMomentum() (*nom.Momentum, error)           { return f.m, nil }
+func (f *fakeMS) GetAllDefinedSporks() ([]*definition.Spork, error)     { return f.sporks, nil }
 func (f *fakeMS) IsSporkActive(s *types.ImplementedSpork) (bool, error) { return f.active[s], nil }
 
 func momentumAt(h uint64) *nom.Momentum {
@@ -138,6 +140,157 @@ func runOps(rng *rand.Rand, n int, out *Out, _ []string) {
 		opsCreate(rng, out)
 		opsActivate(rng, out)
 		opsUnimplemented(rng, out)
+		if i%4 == 0 {
+			opsGenesisStore(rng, out)
+		}
+	}
+}
+
+// ---- the real momentum store (chain/momentum IsSporkActive, GetAllDefinedSporks) over the state that the real genesis
+// code builds from a GenesisConfig.SporkConfig (the way devnets / testnets ship their sporks: created only, or already
+// activated with any enforcement height), viewed at every early height and at heights around the enforcement heights;
+// the real GetEmbeddedMethod on a context over that store
+func genesisSporkEnforcement(rng *rand.Rand) uint64 {
+	switch rng.Intn(5) {
+	case 0:
+		return uint64(rng.Intn(3)) // 0, 1, 2
+	case 1, 2:
+		return uint64(rng.Intn(int(constants.SporkMinHeightDelay) + 4)) // everything up to just above the minimum delay
+	case 3:
+		return uint64(rng.Intn(45))
+	}
+	return []uint64{1000, 1 << 40, ^uint64(0)}[rng.Intn(3)] // far in the future
+}
+
+func randomGenesisSporks(rng *rand.Rand, n int, id func(i int) types.Hash) []*definition.Spork {
+	var l []*definition.Spork
+	for i := 0; i < n; i++ {
+		sp := &definition.Spork{Id: id(i), Name: "spork-genesis", Description: "shipped with the genesis configuration"}
+		if rng.Intn(4) != 0 {
+			sp.Activated = true
+			sp.EnforcementHeight = genesisSporkEnforcement(rng)
+		}
+		l = append(l, sp)
+	}
+	return l
+}
+
+func opsGenesisStore(rng *rand.Rand, out *Out) {
+	ids := &sporkIds{m: map[types.Hash]int{}}
+	for i := 1; i <= 6; i++ {
+		ids.idx(hashN(i))
+	}
+	cfg := *g.EmbeddedGenesis
+	sporks := randomGenesisSporks(rng, rng.Intn(6), func(i int) types.Hash { return hashN(i + 1) })
+	if len(sporks) > 0 || rng.Intn(2) == 0 {
+		cfg.SporkConfig = &genesis.SporkConfig{Sporks: sporks}
+	}
+	gen := genesis.NewGenesis(&cfg)
+	mem := db.NewMemDB()
+	if err := mem.Apply(gen.GetGenesisTransaction().Changes); err != nil {
+		panic(err)
+	}
+	ms := momentum.NewStore(gen, mem)
+	// which of the six ids the binary's three implemented sporks are (or ids that are not defined on this chain)
+	savedIds := [3]types.Hash{types.AcceleratorSpork.SporkId, types.HtlcSpork.SporkId, types.BridgeAndLiquiditySpork.SporkId}
+	defer func() {
+		types.AcceleratorSpork.SporkId, types.HtlcSpork.SporkId, types.BridgeAndLiquiditySpork.SporkId = savedIds[0], savedIds[1], savedIds[2]
+	}()
+	perm := rng.Perm(6)
+	types.AcceleratorSpork.SporkId, types.HtlcSpork.SporkId, types.BridgeAndLiquiditySpork.SporkId = hashN(perm[0]+1), hashN(perm[1]+1), hashN(perm[2]+1)
+	role := [4]*types.ImplementedSpork{nil, types.AcceleratorSpork, types.HtlcSpork, types.BridgeAndLiquiditySpork}
+	roles := Tup(I64(int64(ids.idx(role[1].SporkId))), I64(int64(ids.idx(role[2].SporkId))), I64(int64(ids.idx(role[3].SporkId))))
+
+	hs := map[uint64]bool{}
+	for x := uint64(1); x <= constants.SporkMinHeightDelay+3; x++ {
+		hs[x] = true
+	}
+	for _, sp := range sporks {
+		for d := uint64(0); d < 3; d++ {
+			if x := sp.EnforcementHeight + d - 1; x >= 1 && x < 1<<62 {
+				hs[x] = true
+			}
+		}
+	}
+	hs[uint64(10+rng.Intn(40))] = true
+	var heights []uint64
+	for x := range hs {
+		heights = append(heights, x)
+	}
+	sort.Slice(heights, func(i, j int) bool { return heights[i] < heights[j] })
+	pr := probes()
+	for _, x := range heights {
+		{
+			m := gen.GetGenesisMomentum() // height 1 is the genesis momentum itself (the versioned store sets the frontier on commit)
+			if x != 1 {
+				m = momentumAt(x)
+				m.TimestampUnix = uint64(m.Timestamp.Unix())
+				m.Hash = hashN(int(1000 + x%100000))
+			}
+			data, err := m.Serialize()
+			if err != nil {
+				panic(err)
+			}
+			if err := db.SetFrontier(mem, m.Identifier(), data); err != nil {
+				panic(err)
+			}
+		}
+		fm, err := ms.GetFrontierMomentum()
+		if err != nil || fm.Height != x {
+			panic("synthetic frontier not stored")
+		}
+		stored, err := ms.GetAllDefinedSporks()
+		if err != nil {
+			panic(err)
+		}
+		out.Oracle(len(stored) == len(sporks), "genesis-sporks-are-in-the-spork-contract", M{"configured": I64(int64(len(sporks))), "stored": I64(int64(len(stored)))})
+		st := sporkTerm(ids, stored)
+		var act [4]bool
+		act[0] = true
+		for gi := 1; gi <= 3; gi++ {
+			real, err := ms.IsSporkActive(role[gi])
+			if err != nil {
+				panic(err)
+			}
+			act[gi] = real
+			want, tag := false, "genesis-store:undefined"
+			for _, sp := range sporks {
+				if sp.Id != role[gi].SporkId {
+					continue
+				}
+				switch {
+				case !sp.Activated:
+					tag = "genesis-store:created-only"
+				case x == 1:
+					tag = "genesis-store:height-1"
+				case sp.EnforcementHeight > x:
+					tag = "genesis-store:below-enforcement"
+				case sp.EnforcementHeight <= constants.SporkMinHeightDelay:
+					tag = "genesis-store:enforced-within-min-delay"
+				default:
+					tag = "genesis-store:enforced"
+				}
+				want = sp.Activated && sp.EnforcementHeight <= x && x != 1
+			}
+			out.Case("is_active", Tup(U64(x), st, I64(int64(ids.idx(role[gi].SporkId)))), real, tag)
+			out.Oracle(real == want, "active-iff-enforcement-height-reached",
+				M{"height": U64(x), "sporks": st, "id": I64(int64(ids.idx(role[gi].SporkId))), "active": real, "where": "genesis-configured sporks, real momentum store"})
+		}
+		nesting := (!act[2] || act[3]) && (!act[3] || act[1])
+		ctx := vm_context.NewAccountContext(ms, account.NewAccountStore(g.User1.Address, db.NewMemDB()), nil)
+		for _, p := range pr {
+			_, err := embedded.GetEmbeddedMethod(ctx, p.contract, p.data)
+			code := lookupCode(err)
+			tag := []string{"found", "method-not-found", "contract-doesnt-exist", "not-contract-address"}[code%4]
+			out.Case("lookup", Tup(U64(x), st, roles, true, I64(contractIndex(p.contract)), I64(selectorZ(p.data))), I64(code), "genesis-store-"+tag)
+			if nesting {
+				out.Oracle((code == 0) == act[p.guard], "gated-method-follows-its-spork",
+					M{"method": p.name, "height": U64(x), "available": code == 0, "spork_active": act[p.guard], "where": "genesis-configured sporks"})
+			}
+			if p.guard != 0 && act[p.guard] {
+				out.Oracle(code == 0, "method-unavailable-although-its-spork-is-enforced", M{"method": p.name, "height": U64(x)})
+			}
+		}
 	}
 }
 
